@@ -124,10 +124,17 @@ def view(d, data_start, ncells):
 
 
 def redisassemble(words):
-    """disassemble the emitted words and assemble the listing again"""
+    """What `hera disassemble` prints for the emitted words (seed C06f: the command started to print
+    OR(Rd, R0, Rb) as MOVE(Rd, Rb)); falls back on op.disassemble when the command refuses the file."""
     import hera.op as op
-    text = "\n".join(str(op.disassemble(w)) for w in words) + "\n"
-    return text
+    from hera.main import main
+    with tempfile.TemporaryDirectory() as d:
+        p = os.path.join(d, "w.lcode")
+        open(p, "w").write("".join("%04x\n" % w for w in words))
+        _, exc, out, err = run_real(lambda: main(["disassemble", p]))
+    if exc or not out.strip():
+        return "\n".join(str(op.disassemble(w)) for w in words) + "\n"
+    return out
 
 
 def correspondence(ctx, model_available=True):
